@@ -15,6 +15,9 @@ Record case := mkCase {
 Definition unquoted_value (s : cssstring) : option cssstring :=
   option_map (fun v => mkStr v QNone) (css_unquote s).
 
+(* css/rule.rs Property::write: the printed value has every newline replaced by a space *)
+Definition prop_write (t : list N) : list N := map (fun c => if c =? 10 then 32 else c) t.
+
 Definition model_outputs (body : list N) : option (list (list N)) :=
   match literal_value body with
   | None => None
@@ -22,10 +25,10 @@ Definition model_outputs (body : list N) : option (list (list N)) :=
       match unquoted_value lv with
       | None => None
       | Some u =>
-          Some [ css_display lv;
+          Some [ prop_write (css_display lv);
                  dec_of_Z (Z.of_nat (length (s_val lv)));
-                 css_display (pref_dquotes (css_quote u));
-                 css_display u ]
+                 prop_write (css_display (pref_dquotes (css_quote u)));
+                 prop_write (css_display u) ]
       end
   end.
 
@@ -97,12 +100,14 @@ Fixpoint pu_then_hex (l : list N) : bool :=
   end.
 
 (* escapes of the body: (value, first char, char after the escape) *)
-Inductive bst : Type := BNormal | BSlash | BHex (v : N) (n : nat).
+Inductive bst : Type := BNormal | BCtl | BSlash | BHex (v : N) (n : nat).
+Definition stored_escaped (v : N) : bool := is_control v && negb (v =? 9) && negb (v =? 0).
 Fixpoint bad_escape (l : list N) (st : bst) : bool :=
   match l, st with
   | [], BHex v _ => (v =? 32) || negb (valid_char v)
   | [], _ => false
   | c :: r, BNormal => if c =? 92 then bad_escape r BSlash else bad_escape r BNormal
+  | c :: r, BCtl => (c =? 32) || (if c =? 92 then bad_escape r BSlash else bad_escape r BNormal)
   | c :: r, BSlash =>
       match hexv c with
       | Some d => bad_escape r (BHex d 1)
@@ -113,13 +118,15 @@ Fixpoint bad_escape (l : list N) (st : bst) : bool :=
       | Some d => if Nat.ltb n 6 then bad_escape r (BHex (v * 16 + d) (S n))
                   else (v =? 32) || negb (valid_char v) || bad_escape r BNormal
       | None => (v =? 32) || negb (valid_char v) || ((c =? 9) || (c =? 10) || (c =? 13) || (c =? 12))
-                || (if c =? 92 then bad_escape r BSlash else bad_escape r BNormal)
+                || (if c =? 92 then bad_escape r BSlash
+                    else if (c =? 32) && stored_escaped v then bad_escape r BCtl else bad_escape r BNormal)
       end
   end.
 
 (* K2: the printed token denotes another string: a private-use character followed by a hex digit or
    white space (written as a bare hex escape), an escaped space, an escaped tab/newline, an escape
-   of a surrogate / out-of-range code point, or a hex escape terminated by tab/newline *)
+   of a surrogate / out-of-range code point, a hex escape terminated by tab/newline, or the escape of a
+   control character followed by a space character (cleanup_escape_ws drops the terminator) *)
 Definition known_emit (c : case) : bool :=
   pu_then_hex (denoted c) || bad_escape (c_body c) BNormal.
 
